@@ -162,7 +162,7 @@ def prior_kwargs(recipe, variant=0):
     if recipe.get("priors") != "ctor":
         return {}, {}, {}
     a, b = 2.0 + variant, 3.0 + 2.0 * variant
-    lik_kw = {"noise_prior": PR.GammaPrior(a, b), "noise_constraint": CN.GreaterThan(1e-4 if variant == 0 else 2e-3)}
+    lik_kw = {"noise_prior": PR.GammaPrior(a, b), "noise_constraint": CN.GreaterThan(1e-4 if variant == 0 else 2e-3, initial_value=0.05 + 0.2 * variant)}
     ls_kw = {"lengthscale_prior": PR.GammaPrior(a + 1.0, b), "lengthscale_constraint": CN.GreaterThan(1e-3 * (1 + 4 * variant))}
     os_kw = {"outputscale_prior": PR.LogNormalPrior(0.3 * variant, 1.0), "outputscale_constraint": CN.Interval(1e-3, 50.0 + 25.0 * variant)}
     return lik_kw, ls_kw, os_kw
